@@ -485,6 +485,25 @@ func (r *watchRun) catch(who string) {
 	}
 }
 
+// barrier: the event loop accepts an (empty) batch only when it is back in its select, i.e. after the previous batch has been
+// filed or the previous height tick has been processed completely (every request of that tick answered, hence logged: the fake
+// node logs before it answers). Taken twice so that it never depends on which ready channel the select happened to pick.
+// Returns false when the watcher ended instead.
+func (r *watchRun) barrier() bool {
+	for i := 0; i < 2; i++ {
+		select {
+		case r.evB <- nil:
+		case <-r.errC:
+			r.exited = true
+			return false
+		case <-r.panicC:
+			r.exited, r.panicked = true, true
+			return false
+		}
+	}
+	return true
+}
+
 func (r *watchRun) en() string { return fb(r.w.blockPollerEnabled.Load()) }
 
 // start launches the real handleEvents (and, for fetch cases, the real fetchEvents whose first count request is answered count0).
@@ -577,7 +596,7 @@ func (r *watchRun) stop() {
 		}
 		r.parked = false
 	}
-	deadline := time.After(5 * time.Second)
+	deadline := time.After(120 * time.Second)
 	hd, fd, ed := r.handleDone, r.fetchDone, r.heightDone
 	for hd != nil || fd != nil || ed != nil {
 		select {
@@ -596,7 +615,10 @@ func (r *watchRun) stop() {
 			case <-time.After(50 * time.Millisecond):
 			}
 		case <-arrive:
-			release <- struct{}{}
+			select {
+			case release <- struct{}{}:
+			case <-time.After(50 * time.Millisecond): // the handler left with its cancelled request
+			}
 		case <-deadline:
 			panic("verif harness: watcher goroutines did not stop")
 		}
@@ -760,7 +782,7 @@ func (r *watchRun) batch(evs []*evSpec) {
 		us[i] = e.toUnconfirmed()
 	}
 	r.evB <- us
-	r.evB <- nil // barrier: received only once the previous batch has been filed
+	r.barrier()
 	r.g.emit("wbatch %s evs=%s en=%s", r.id, renderEvs(evs), r.en())
 }
 
@@ -800,7 +822,7 @@ func (r *watchRun) heightTick(height int32, drain bool) {
 				select {
 				case <-n.harrive:
 					r.hparked = true
-				case <-time.After(2 * time.Second):
+				case <-time.After(60 * time.Second):
 				}
 			} else {
 				select {
@@ -844,13 +866,7 @@ func (r *watchRun) heightTick(height int32, drain bool) {
 		r.hC <- height
 	}
 	if !r.exited {
-		select {
-		case r.evB <- nil: // barrier: process() has returned
-		case <-r.errC:
-			r.exited = true
-		case <-r.panicC:
-			r.exited, r.panicked = true, true
-		}
+		r.barrier()
 	}
 	fwd := drainPubs(r.msgC)
 	sort.Strings(fwd)
